@@ -393,3 +393,157 @@ def _missing_one(test):
     if len(none) == 1 and len(notnone) == 2 and set(none + notnone) == {"n_word", "n_frac", "n_int"}:
         return none[0]
     return None
+
+
+# ------------------------------------------------------------------------------------------------ set_best_sizes (C06)
+
+def best_sizes_assembly(ck, rule_asm, rule_cap, rule_search):
+    """C06.R2 assembly formulas, C06.R3 word cap, C06.R4 the integer-length search is integer arithmetic."""
+    prog = ck.prog
+    f = prog.func("objects.Fxp.set_best_sizes")
+    pfs = fpaths(prog, f)
+    ck.saw(f, paths=len(pfs))
+    nmax = Term.var("n_word_max")
+    n_asm = 0
+    seen = set()
+
+    def bad(rule, what, construct, node, detail=None):
+        k = (rule, construct)
+        if k not in seen:
+            seen.add(k)
+            ck.bad(rule, f, what, construct, node, detail)
+
+    for pf in pfs:
+        if pf.end == "raise":
+            continue
+        gval = [g for g in pf.guards if g[2] is not None and src(g[2]) == "val is None"]
+        is_none = bool(gval and gval[0][1])
+        # ---- cap (all paths): last store to self.n_word is min(prev, n_word_max); closing resize passes no sizes
+        wst = [st for st in pf.stores if st.path == "self.n_word"]
+        if not wst:
+            bad(rule_cap, "set_best_sizes sets the word length", "path without a store to n_word", f.node)
+            continue
+        last = peel(wst[-1].value)[0]
+        if isinstance(last, ast.Call) and dotted(last.func) == "int" and last.args:
+            last = peel(last.args[0])[0]
+        okcap = isinstance(last, ast.Call) and dotted(last.func) in ("min", "np.minimum") and len(last.args) == 2 and any(dotted(a) == "n_word_max" for a in last.args)
+        if not okcap:
+            bad(rule_cap, "an inferred word never exceeds the configured maximum: the last definition of n_word is min(n_word, n_word_max)", "final n_word = %s" % src(wst[-1].raw_value)[:70], wst[-1].stmt,
+                "values needing more bits than the maximum get a word longer than the configuration allows")
+        rz = [ce for ce in pf.calls if isinstance(ce.raw.func, ast.Attribute) and ce.raw.func.attr == "resize" and dotted(ce.raw.func.value) == "self"]
+        if not rz:
+            bad(rule_cap, "set_best_sizes finishes through resize", "path without resize", f.node)
+        else:
+            c = rz[-1].raw
+            passes = [k.arg for k in c.keywords if k.arg in ("n_word", "n_frac", "n_int", "signed", "dtype")] + (["positional"] if c.args else [])
+            if passes:
+                bad(rule_cap, "the closing resize takes the sizes just stored (passes none itself)", "resize(%s)" % ", ".join(passes), c, "sizes passed here override the capped ones")
+            si = [i for i, (k, o) in enumerate(pf.order) if k == "store" and o is wst[-1]][0]
+            ri = [i for i, (k, o) in enumerate(pf.order) if k == "call" and o is rz[-1]][0]
+            if ri < si:
+                bad(rule_cap, "the cap is applied before the closing resize", "n_word capped after resize", wst[-1].stmt)
+        if is_none or pf.zero_loops:
+            continue
+        # ---- assembly
+        sgn = guard_assignment(pf.guards, rename=IDENT)
+        gw = [g for g in pf.guards if g[2] is not None and src(g[2]) == "n_word is None" and isinstance(g[3], ast.If)]
+        if not gw:
+            continue
+        word_inferred = gw[-1][1]
+        fst = [st for st in pf.stores if st.path == "self.n_frac"]
+        if len(wst) < 2 or not fst:
+            continue
+        try:
+            F = _T(fst[-1].value, BOOLS + ("sign",)).subst(sgn)
+            W = _T(wst[-2].value, BOOLS + ("sign",)).subst(sgn)
+        except NotATerm as e:
+            ck.unsure(rule_asm, f, "assembled sizes are terms", fst[-1].stmt, str(e))
+            continue
+        sg_atom = Term.bvar("self.signed").subst(sgn)
+        ck.saw(terms=2)
+        n_asm += 1
+        # F must be min{A, E}; one argument A = LIMIT - sign - I with I a max(.,0) integer requirement
+        mins = [a for a in F.atoms() if a[0] == "min"]
+        rest = F - (Term.atom(mins[0]) if len(mins) == 1 else Term())
+        if len(mins) != 1 or rest != Term():
+            bad(rule_asm, "the fraction length is min(room left by the integer part, exact fraction length)", "n_frac = %s" % F.show()[:120], fst[-1].stmt,
+                "without the min the fraction either ignores the word limit or exceeds the exact length")
+            continue
+        args = mins[0][1]
+        if word_inferred:
+            limit = nmax
+        else:
+            try:
+                limit = _T(pf.env.get("n_word", ast.Name(id="n_word", ctx=ast.Load())), BOOLS + ("sign",)).subst(sgn)
+            except NotATerm:
+                limit = Term.var("n_word")
+        found = None
+        for a in args:
+            I = limit - sg_atom - a
+            # I should be a single max(...) atom (non-negative integer requirement)
+            if len(I.m) == 1:
+                (mono, c), = I.m.items()
+                if c == 1 and len(mono) == 1 and mono[0][0][0] == "max" and any(x.is_const() and x.const_value() == 0 for x in mono[0][0][1]):
+                    found = I
+        if found is None:
+            bad(rule_asm, "n_frac leaves room for the integer part: one argument of the min is %s - sign - n_int with n_int = max(required, 0)" % ("n_word_max" if word_inferred else "n_word"),
+                "n_frac = %s" % F.show()[:140], fst[-1].stmt, "the largest fraction that still leaves room for the integer part is limit - sign - n_int; anything else overflows or wastes bits (negative n_frac must stay possible)")
+            continue
+        if word_inferred:
+            o = F + found + sg_atom
+            if W != o:
+                bad(rule_asm, "with n_word inferred the word is minimal: n_word = n_frac + n_int + sign", "n_word = %s, expected %s" % (W.show()[:100], o.show()[:100]), wst[-2].stmt,
+                    {"meaning": "the word is not the smallest that holds the values"})
+        else:
+            if W != limit:
+                bad(rule_asm, "a given n_word is kept", "n_word = %s" % W.show()[:80], wst[-2].stmt)
+    if n_asm == 0 and not seen:
+        raise AnalysisError("set_best_sizes: size-assembly block not recognised on any path")
+    if not [k for k in seen if k[0] == rule_asm]:
+        ck.ok(rule_asm, f, "size assembly: n_frac = min(limit - sign - n_int, exact) and minimal word on all %d value paths" % n_asm)
+    if not [k for k in seen if k[0] == rule_cap]:
+        ck.ok(rule_cap, f, "word cap min(n_word, n_word_max) precedes the argument-less closing resize on every path")
+    # ---- search arithmetic: n_int search uses integer shifts/comparisons only
+    floaty = []
+    for n in ast.walk(f.node):
+        if isinstance(n, ast.While):
+            names = {x.id for x in ast.walk(n.test) if isinstance(x, ast.Name)}
+            if "n_int" in names:
+                for c in calls_in(n):
+                    if dotted(c.func) in ("np.log2", "math.log2", "np.log", "math.log", "np.ceil", "np.floor", "math.ceil"):
+                        floaty.append(c)
+    for n in ast.walk(f.node):
+        if isinstance(n, ast.Assign) and any(isinstance(t, ast.Name) and t.id == "n_int" for t in n.targets):
+            for c in calls_in(n.value):
+                if dotted(c.func) in ("np.log2", "math.log2", "np.log", "math.log"):
+                    floaty.append(c)
+    ck.check(not floaty, rule_search, f, "the integer-length search is exact integer arithmetic (shifts and comparisons, no logarithm)", "uses %s" % (src(floaty[0])[:60] if floaty else ""), floaty[0] if floaty else None,
+             "log2 of a double rounds at powers of two near 2^48..2^53: the word comes out one bit short")
+    has_while = any(isinstance(n, ast.While) and "n_int" in {x.id for x in ast.walk(n.test) if isinstance(x, ast.Name)} for n in ast.walk(f.node))
+    ck.check(has_while, rule_search, f, "the integer length is found by the bit-shift search loop", "no search loop over n_int", f.node)
+
+
+def word_max_chain(ck, rule):
+    """C06.R3: the configured maximum reaches set_best_sizes: __init__ -> _init_size -> set_best_sizes, after config.update."""
+    prog = ck.prog
+    init = prog.func("objects.Fxp.__init__")
+    isz = prog.func("objects.Fxp._init_size")
+    found = False
+    for c in calls_in(init.node):
+        if isinstance(c.func, ast.Attribute) and c.func.attr == "_init_size":
+            found = True
+            v = kw(c, "n_word_max")
+            ck.check(dotted(v) == "self.config.n_word_max", rule, init, "the constructor passes the configured n_word_max to the size initialiser", "n_word_max=%s" % (src(v) if v is not None else None), c,
+                     "the module default would be used instead of the object's configuration")
+            v = kw(c, "max_error")
+            ck.check(dotted(v) == "self.config.max_error", rule, init, "the constructor passes the configured max_error", "max_error=%s" % (src(v) if v is not None else None), c, nontrivial=False)
+            # after config.update
+            upd = [x for x in calls_in(init.node) if dotted(x.func) == "self.config.update"]
+            ck.check(bool(upd) and upd[0].lineno < c.lineno, rule, init, "configuration keywords are applied before sizes are inferred", "config.update after _init_size", c)
+    ck.check(found, rule, init, "the constructor calls the size initialiser", "no _init_size call", init.node)
+    for c in calls_in(isz.node):
+        if isinstance(c.func, ast.Attribute) and c.func.attr == "set_best_sizes":
+            v = kw(c, "n_word_max")
+            ck.check(dotted(v) == "n_word_max", rule, isz, "_init_size forwards n_word_max to set_best_sizes", "n_word_max=%s" % (src(v) if v is not None else None), c)
+            v = kw(c, "raw")
+            ck.check(dotted(v) == "raw", rule, isz, "_init_size forwards raw to set_best_sizes", "raw=%s" % (src(v) if v is not None else None), c, nontrivial=False)
